@@ -90,3 +90,78 @@ package annotations
 //@           forall l int :: 0 <= l && l < len(lines) ==> firstToken(lines[l]) != c.options.DisableKeywords[j]
 //@   loop 2 invariant lns:  0 <= $idx(2) && $idx(2) <= len(lines) && forall l int :: 0 <= l && l < $idx(2) ==> firstToken(lines[l]) != keyword
 //@ end
+
+// ---------------------------------------------------------------------------
+// C18 — external authentication fails closed
+
+// (annotations.ConfigValueGetter).Get: implemented by *Mapper and *KeyConfig
+//@ func (ConfigValueGetter).Get
+//@   trusted
+//@   modifies nothing
+//@   ensures nonnil: result != nil
+//@ end
+
+// either the request is intercepted by a complete auth configuration or the
+// path denies everything; no other path's auth configuration is touched
+//@ func (*updater).setAuthExternal
+//@   props C18
+//@   requires args:  auth != nil && url != nil && config != nil
+//@   requires named: authProxyNamed(c.haproxy.Frontend())
+//@   modifies *auth, objects("hatypes.Frontend"), objects("[]*hatypes.AuthProxyBind"),
+//@       objects("hatypes.Backends"), objects("hatypes.Backend"), objects("hatypes.Endpoint"), objects("map[string]*hatypes.Backend"),
+//@       objects("[]map[string]*hatypes.Backend"), objects("[]*hatypes.Endpoint"), objects("[]bool"), objects("[]string"), objects("map[int]bool")
+//@   ensures closed: auth.AlwaysDeny || (auth.AuthBackendName != "" && auth.AuthPath != "")
+//@   ensures others: forall p *hatypes.BackendPath :: old(allocated(p)) && &p.AuthExternal != auth ==> p.AuthExternal == old(p.AuthExternal)
+//@   ensures named:  authProxyNamed(c.haproxy.Frontend())
+//@   ensures bpaths: forall b *hatypes.Backend :: old(allocated(b)) ==> b.Paths == old(b.Paths)
+//@   ensures links:  forall p *hatypes.BackendPath :: old(allocated(p)) ==> p.Link == old(p.Link)
+//@   at call AcquireAuthBackendName#1 assert lua: !(external.IsExternal && !external.HasLua)
+//@ end
+
+// per-path configuration: the value a key has for one path link
+//@ spec func keyValue(k *KeyConfig, key string) string =
+//@     in(key, k.keys) ? k.keys[key].Value : (in(key, k.mapper.annDefaults) ? k.mapper.annDefaults[key] : "")
+//@ spec func pathValue(m *Mapper, link *hatypes.PathLink, key string) string =
+//@     in(link.Hash(), m.configByPath) ? keyValue(m.configByPath[link.Hash()], key) : (in(key, m.annDefaults) ? m.annDefaults[key] : "")
+//@ spec func pathConfigWF(m *Mapper) bool = m != nil && m.configByPath != nil && forall h hatypes.PathLinkHash :: in(h, m.configByPath) ==>
+//@     m.configByPath[h] != nil && m.configByPath[h].mapper == m && m.configByPath[h].keys != nil &&
+//@     forall key string :: in(key, m.configByPath[h].keys) ==> m.configByPath[h].keys[key] != nil
+
+//@ func (*KeyConfig).Get
+//@   props C18
+//@   requires wf: c != nil && c.mapper != nil && forall k string :: in(k, c.keys) ==> c.keys[k] != nil
+//@   modifies nothing
+//@   ensures nonnil: result != nil
+//@   ensures value:  result.Value == keyValue(c, key)
+//@   ensures stored: in(key, c.keys) ==> result == c.keys[key]
+//@   ensures global: !in(key, c.keys) ==> result.Source == nil
+//@ end
+
+//@ func (*Mapper).GetConfig
+//@   props C18
+//@   requires wf: pathConfigWF(c) && path != nil
+//@   modifies c.configByPath[*]
+//@   ensures result: result != nil && in(path.Hash(), c.configByPath) && c.configByPath[path.Hash()] == result
+//@   ensures found:  old(in(path.Hash(), c.configByPath)) ==> result == old(c.configByPath[path.Hash()])
+//@   ensures fresh:  !old(in(path.Hash(), c.configByPath)) ==> fresh(result) && result.mapper == c && result.keys != nil && len(result.keys) == 0
+//@   ensures others: forall h hatypes.PathLinkHash :: h != path.Hash() ==> in(h, c.configByPath) == old(in(h, c.configByPath)) && c.configByPath[h] == old(c.configByPath[h])
+//@   ensures wf:     pathConfigWF(c)
+//@ end
+
+//@ spec func closedAuth(a *hatypes.AuthExternal) bool = a.AlwaysDeny || (a.AuthBackendName != "" && a.AuthPath != "")
+//@ spec func pathsWF(b *hatypes.Backend) bool = b != nil && (forall k int :: 0 <= k && k < len(b.Paths) ==> b.Paths[k] != nil && b.Paths[k].Link != nil)
+//@     && (forall i int, j int :: 0 <= i && i < j && j < len(b.Paths) ==> b.Paths[i] != b.Paths[j])
+//@ spec func declaresBackendAuth(m *Mapper, p *hatypes.BackendPath) bool =
+//@     lower(pathValue(m, p.Link, ingtypes.BackAuthExternalPlacement)) == "backend" && pathValue(m, p.Link, ingtypes.BackAuthURL) != ""
+
+// every path that declares auth-url with backend placement ends intercepted or denied
+//@ func (*updater).buildBackendAuthExternal
+//@   props C18
+//@   requires wf:    d != nil && pathConfigWF(d.mapper) && pathsWF(d.backend)
+//@   requires named: authProxyNamed(c.haproxy.Frontend())
+//@   ensures closed: forall k int :: 0 <= k && k < len(d.backend.Paths) && declaresBackendAuth(d.mapper, d.backend.Paths[k]) ==> closedAuth(&d.backend.Paths[k].AuthExternal)
+//@   loop 1 invariant rng:   0 <= $idx(1) && $idx(1) <= len(d.backend.Paths) && d.backend == old(d.backend) && d.mapper == old(d.mapper) && d.backend.Paths == old(d.backend.Paths)
+//@   loop 1 invariant wf:    pathConfigWF(d.mapper) && pathsWF(d.backend) && authProxyNamed(c.haproxy.Frontend())
+//@   loop 1 invariant seen:  forall k int :: 0 <= k && k < $idx(1) ==> in(d.backend.Paths[k].Link.Hash(), d.mapper.configByPath)
+//@   loop 1 invariant done:  forall k int :: 0 <= k && k < $idx(1) && declaresBackendAuth(d.mapper, d.backend.Paths[k]) ==> closedAuth(&d.backend.Paths[k].AuthExternal)
+//@ end
